@@ -21,6 +21,8 @@ SHAPES = [
     "long-line",
     "empty-body",
     "addr-quotes",
+    "addr-odd",
+    "ctype-odd",
 ]
 
 TAME_SHAPES = ["plain", "folded", "multipart", "crlf", "dot-lines", "empty-body"]
@@ -114,6 +116,18 @@ def build(shape, tok):
     elif shape == "addr-quotes":
         hdr[0] = b'From: "Doe, \\"JD\\" John" <jd@example.org>, "back\\\\slash" <b@example.org>'
         hdr[1] = b"To: undisclosed-recipients:;"
+    elif shape == "addr-odd":
+        hdr[0] = b'From: "a@b"@example.com, local-only, <>, "q\"uote"@[10.0.0.1], grp: x@example.org, y@example.org;'
+        hdr[1] = b"To: (comment (nested)) c@example.org, =?utf-8?q?=22?= <d@example.org>"
+        hdr.append(b"Reply-To: <@route.example:e@example.org>")
+        hdr.append(b"In-Reply-To: <odd\"id@example.org> (with \\comment)")
+    elif shape == "ctype-odd":
+        hdr.append(b"MIME-Version: 1.0")
+        hdr.append(b'Content-Type: text/plain; charset="us-ascii"; name*=utf-8\'\'na%22me.txt; x="a\\b"; y=(c) z')
+        hdr.append(b'Content-Disposition: attachment; filename="fi\"le\\.txt"; size=abc')
+        hdr.append(b"Content-Language: en, (fr) de")
+        hdr.append(b'Content-ID: <id"with"quotes@example.org>')
+        hdr.append(b"Content-Description: desc with \"quotes\" and \\ backslash")
     else:
         raise ValueError(shape)
     out = nl.join(hdr) + nl + nl + nl.join(body)
